@@ -154,6 +154,32 @@ def at_site(pb, fn, node):
     return PolyBuilder(pb.atom_fn, dict(pb.rename, **pc)) if pc else pb
 
 
+NEG = {"Lt": "GtE", "LtE": "Gt", "Gt": "LtE", "GtE": "Lt", "Eq": "NotEq", "NotEq": "Eq"}
+
+
+def effective_op(fn, ifnode, op, listname=None):
+    """the comparison under which the *split* is performed: the test's operator if the branch that calls argmin is the
+    body of the `if`, its negation if the split is in the else branch or in what follows an `if` whose body leaves the
+    function (guard clause); '?' if the split cannot be located"""
+    name = type(op).__name__
+
+    def has_argmin(stmts):
+        return any(isinstance(x, ast.Call) and getattr(x.func, "id", None) == "argmin" for s_ in stmts for x in ast.walk(s_))
+    if has_argmin(ifnode.body) and not has_argmin(ifnode.orelse):
+        return name
+    if has_argmin(ifnode.orelse) and not has_argmin(ifnode.body):
+        return NEG.get(name, "?")
+    if not has_argmin(ifnode.body) and not has_argmin(ifnode.orelse):
+        # guard clause: the body returns/raises, the split follows the `if`
+        leaves = bool(ifnode.body) and isinstance(ifnode.body[-1], (ast.Return, ast.Raise))
+        if leaves and not ifnode.orelse:
+            return NEG.get(name, "?")
+        # the selection was made before the test (jmin = argmin(list_mem); if min(list_mem) < fallback: ...): the
+        # branch that uses the selected index is the split
+        return name if not leaves else "?"
+    return "?"
+
+
 def decision_sites(fn, pb0, live):
     """list_mem = [elem for j in range(..)] ... if min(list_mem) < fallback / jmin = argmin(list_mem)"""
     out = []
@@ -189,7 +215,7 @@ def decision_sites(fn, pb0, live):
                     argvar = n.targets[0].id
             out.append(dict(elem=pkey(with_var(pb, var).poly(elem)), var="$j", rng=tuple(pkey(pb.poly(a)) for a in rng),
                             fallback=None if use is None else pkey(pb.poly(use[2])),
-                            op=None if use is None else type(use[1]).__name__, node=s, argvar=argvar,
+                            op=None if use is None else effective_op(fn, use[0], use[1]), node=s, argvar=argvar,
                             text=" ".join(ast.unparse(elem).split())))
     # the candidate list written in place:  if min([...]) < fallback: jmin = argmin([...])  /  split = argmin([...])
     tests = {}
@@ -211,7 +237,7 @@ def decision_sites(fn, pb0, live):
                         argvar = a.targets[0].id
             inplace.append(dict(argvar=argvar, elem=pkey(with_var(pb, var).poly(elem)), var="$j", rng=tuple(pkey(pb.poly(a)) for a in rng),
                                 fallback=None if use is None else pkey(pb.poly(use.test.comparators[0])),
-                                op=None if use is None else type(use.test.ops[0]).__name__, node=n, kind=n.func.id, use=use,
+                                op=None if use is None else effective_op(fn, use, use.test.ops[0]), node=n, kind=n.func.id, use=use,
                                 text=" ".join(ast.unparse(elem).split())))
     for d in inplace:
         if d["kind"] == "argmin":
@@ -326,11 +352,16 @@ def run(chk, ctx):
                             problems.append("table takes a fallback into account that the decision ignores")
                     elif t["fallback"] is not None and t["fallback"] != d["fallback"]:
                         problems.append(f"fallback term differs: table {pstr(dict(t['fallback']))} vs decision {pstr(dict(d['fallback']))}")
-                    if d["fallback"] is not None and d["op"] not in ("Lt", "LtE"):
+                    if d["fallback"] is not None and d["op"] == "?":
+                        problems.append("?cannot locate the branch that performs the split")
+                    elif d["fallback"] is not None and d["op"] not in ("Lt", "LtE"):
                         problems.append(f"comparison {d['op']} picks the split when it is not better")
                     if best is None or len(problems) < len(best):
                         best = problems
                 problems = best
+                if problems and all(p_.startswith("?") for p_ in problems):
+                    res.append((cons, None, f"candidate `{d['text']}`: " + "; ".join(p_[1:] for p_ in problems), d["node"]))
+                    continue
                 res.append((cons, False if problems else True,
                            f"candidate `{d['text']}` over range {'range(' + ', '.join(pstr(dict(a)) for a in d['rng']) + ')'}: "
                            + ("; ".join(problems) if problems else "same candidate, range and fallback as the table"),
@@ -675,15 +706,60 @@ def base_rules(chk, ctx):
                 vals.append((s.lineno, s, s.value.args[0]))
         vals.sort(key=lambda x: x[0])
         return rel, fn, pb, vals
-    SPEC = [  # (table, k-th append, builder, path condition that selects the production, reason)
-        ("get_opt_0_table", 0, "revolve", (("l == 0", True),)),
-        ("get_opt_0_table", 1, "revolve", (("l == 0", False), ("cm == 0", False), ("l == 1", True))),
-        ("get_opt_0_table", 2, "revolve", (("l == 0", False), ("cm == 0", False), ("l == 1", False), ("cm == 1", True))),
-        ("get_opt_inf_table", 0, "disk_revolve", (("l == 0", True),)),
-        ("get_opt_inf_table", 1, "disk_revolve", (("l == 0", False), ("l == 1", True), ("cm == 0", True))),
-        ("get_opt_inf_table", 2, "disk_revolve", (("l == 0", False), ("l == 1", True), ("cm == 0", False))),
+    def ev_int(e, cell):
+        if isinstance(e, ast.Constant) and isinstance(e.value, int) and not isinstance(e.value, bool):
+            return e.value
+        if isinstance(e, ast.Name):
+            return cell.get(e.id)
+        if isinstance(e, ast.BinOp) and isinstance(e.op, (ast.Add, ast.Sub)):
+            a, b_ = ev_int(e.left, cell), ev_int(e.right, cell)
+            if a is None or b_ is None:
+                return None
+            return a + b_ if isinstance(e.op, ast.Add) else a - b_
+        return None
+
+    def ev_test(t, cell):
+        """truth value of a guard on the cell (a sample point of the region of (l, cm) the border entry stands for), or
+        None when the guard reads something else"""
+        if isinstance(t, ast.BoolOp):
+            vals = [ev_test(v, cell) for v in t.values]
+            if isinstance(t.op, ast.And):
+                return False if any(v is False for v in vals) else (None if any(v is None for v in vals) else True)
+            return True if any(v is True for v in vals) else (None if any(v is None for v in vals) else False)
+        if isinstance(t, ast.UnaryOp) and isinstance(t.op, ast.Not):
+            v = ev_test(t.operand, cell)
+            return None if v is None else (not v)
+        if isinstance(t, ast.Compare) and len(t.ops) == 1:
+            a, b_ = ev_int(t.left, cell), ev_int(t.comparators[0], cell)
+            if a is None or b_ is None:
+                return None
+            op = t.ops[0]
+            return {ast.Eq: a == b_, ast.NotEq: a != b_, ast.Lt: a < b_, ast.LtE: a <= b_, ast.Gt: a > b_, ast.GtE: a >= b_}.get(type(op))
+        return None
+
+    def select(bname, cell):
+        """production paths of the builder that the cell can take: every guard that reads only l / cm agrees"""
+        out = []
+        for conds, items in production_paths(g, bname):
+            ok = True
+            for node, val in conds:
+                v = ev_test(node.test, cell)
+                if v is not None and v != val:
+                    ok = False
+                    break
+            if ok:
+                out.append((conds, items))
+        return out
+    BIG, BIG2 = 7, 5
+    SPEC = [  # (table, k-th append, builder, sample cell of the region the border stands for, values substituted)
+        ("get_opt_0_table", 0, "revolve", {"l": 0, "cm": BIG2}, {"l": 0}),
+        ("get_opt_0_table", 1, "revolve", {"l": 1, "cm": BIG2}, {"l": 1}),
+        ("get_opt_0_table", 2, "revolve", {"l": BIG, "cm": 1}, {"cm": 1}),
+        ("get_opt_inf_table", 0, "disk_revolve", {"l": 0, "cm": BIG2}, {"l": 0}),
+        ("get_opt_inf_table", 1, "disk_revolve", {"l": 1, "cm": 0}, {"l": 1, "cm": 0}),
+        ("get_opt_inf_table", 2, "disk_revolve", {"l": 1, "cm": BIG2}, {"l": 1}),
     ]
-    for tname, k, bname, want in SPEC:
+    for tname, k, bname, cell, fixed in SPEC:
         if tname not in live.funcs or bname not in g.builders:
             continue
         rel, fn, pb, vals = table_values(tname)
@@ -693,19 +769,32 @@ def base_rules(chk, ctx):
             continue
         _, stmt, expr = vals[k]
         expect = pb.poly(expr)
-        prods = [(c, it) for c, it in production_paths(g, bname) if cond_key(c, None) == want]
+        params = [a.arg for a in live.funcs[bname][1].args.args]
+        if not ({"l", "cm"} <= set(params)):
+            chk.decide("C07.BASE", cons, None, f"{bname} does not take (l, cm)", rel=rel, node=stmt)
+            continue
+        prods = select(bname, cell)
         if len(prods) != 1:
-            chk.decide("C07.BASE", cons, None, f"{len(prods)} productions of {bname} under {want}", rel=rel, node=stmt)
+            chk.decide("C07.BASE", cons, None, f"{len(prods)} productions of {bname} on the cell {cell}", rel=rel, node=stmt)
             continue
         pbb = builder(tname)
+        pbb = PolyBuilder(pbb.atom_fn, dict(pbb.rename, **fixed))
         cost, why = production_cost(prods[0][1], costs, pbb, False)
         if cost is None:
             chk.decide("C07.BASE", cons, None, why, rel=rel, node=stmt)
             continue
+        # the table's loop variable for the number of steps / slots takes the cell's value too
         same = pkey(cost) == pkey(expect)
+        if not same:
+            # the border expression may be written over the table's own loop variable: compare after substituting it
+            for tv in sorted({x.id for x in ast.walk(expr) if isinstance(x, ast.Name)} - {"uf", "ub", "rd", "wd"}):
+                for key, val in fixed.items():
+                    pbe = PolyBuilder(pb.atom_fn, dict(pb.rename, **{tv: val}))
+                    if pkey(pbe.poly(expr)) == pkey(cost):
+                        same = True
         chk.decide("C07.BASE", cons, True if same else False,
-                   f"table border `{' '.join(ast.unparse(expr).split())}` = {pstr(expect)}; the production of {bname} under "
-                   f"{[t for t, v in want if v]} costs {pstr(cost)}", rel=rel, node=stmt)
+                   f"table border `{' '.join(ast.unparse(expr).split())}` = {pstr(expect)}; the production of {bname} on the cell "
+                   f"{cell} costs {pstr(cost)}", rel=rel, node=stmt)
     # hierarchical tables: row 0 is ub for both tables <-> l == 0 productions of aux and recurse
     if "get_hopt_table" in live.funcs:
         rel, fn = live.funcs["get_hopt_table"]
